@@ -22,7 +22,7 @@ from pyvc.pool import collect, run_jobs
 from pyvc.report import A_FP, VENV_PY
 from pyvc.values import Obj, SArr, SInt, SOpt, SReal, SU, U, to_z3, ustr, wrap
 
-LEVEL = "proof"
+LEVEL = "other"
 T = "iodata.orbitals.MolecularOrbitals"
 SPIN_GETTERS = ("occsa", "occsb", "coeffsa", "coeffsb", "energiesa", "energiesb", "irrepsa", "irrepsb", "spinpol")
 
